@@ -278,3 +278,78 @@ META = dict(
                  "configurations proved: orientation set / None with window length and detrend mode set (window_length None and detrend None/'none' are the "
                  "bounded clauses only)"],
 )
+
+
+# ---------------------------------------------------------------------------------------------------------------------
+# the three-component wrappers: trim / detrend / window / butterworth_filter apply the TimeSeries method with the caller's arguments to ns, ew
+# and vt, once each, and note the step in meta.  Component state = one abstract content per object in a ghost map (the TimeSeries methods
+# themselves: C18 for trim, bounded C10 for the scipy-based ones).
+WR_C0 = z3.Const("component_content_on_entry", z3.ArraySort(I, I))
+TRIMF = z3.Function("TRIMF", I, R, R, I)
+DETRF = z3.Function("DETRF", I, I, I)
+WINF = z3.Function("WINF", I, I, R, I)
+BUTF = z3.Function("BUTF", I, R, R, I, I)
+T0, T1, WWID, BLO, BHI = z3.Reals("start_time end_time width f_low f_high")
+BORD = z3.Int("order")
+_CODE = {"linear": 1, "constant": 2, "tukey": 3}
+
+
+def _upd_wr(st, oid, val):
+    st.env["__WC"] = z3.Store(st.env["__WC"], oid, val)
+
+
+def _cur(st, oid):
+    return z3.Select(st.env["__WC"], oid)
+
+
+def _m_ts_trim(ex, st, a, k, n_):
+    _upd_wr(st, a[0].id, TRIMF(_cur(st, a[0].id), real_(k["start_time"]), real_(k["end_time"])))
+    return NONE
+
+
+def _m_ts_detrend(ex, st, a, k, n_):
+    _upd_wr(st, a[0].id, DETRF(_cur(st, a[0].id), z3.IntVal(_CODE[k["type"].s])))
+    return NONE
+
+
+def _m_ts_window(ex, st, a, k, n_):
+    _upd_wr(st, a[0].id, WINF(_cur(st, a[0].id), z3.IntVal(_CODE[k["type"].s]), real_(k["width"])))
+    return NONE
+
+
+def _m_ts_butter(ex, st, a, k, n_):
+    lo, hi = k["fcs_in_hz"]
+    _upd_wr(st, a[0].id, BUTF(_cur(st, a[0].id), real_(lo), real_(hi), k["order"]))
+    return NONE
+
+
+def _wr_inputs(extra):
+    def mk(ex, st):
+        st.env["self"] = sym_obj(ex, st, "SeismicRecording3C", {"ns": SObj("TimeSeries", NS_ID, "param:self.ns"), "ew": SObj("TimeSeries", EW_ID, "param:self.ew"),
+                                                                "vt": SObj("TimeSeries", VT_ID, "param:self.vt"), "degrees_from_north": DEG, "meta": DictV({})}, owner="param:self")
+        st.env.update(extra)
+        st.env["__WC"] = WR_C0
+        return [NS_ID != EW_ID, NS_ID != VT_ID, EW_ID != VT_ID]
+    return mk
+
+
+def _wrapper(method, extra, apply):
+    gh = {"C": FuncV(lambda ex, st, a, k, n_: z3.Select(st.env["__WC"], a[0]), "C"), "C0": lambda i: z3.Select(WR_C0, i), "NS_ID": NS_ID, "EW_ID": EW_ID, "VT_ID": VT_ID,
+          "APPLY": apply}
+    return Contract(qual=f"hvsrpy.seismic_recording_3c.SeismicRecording3C.{method}", params=["self"] + list(extra), ghost=gh, make_inputs=_wr_inputs(extra),
+                    ensures=["C(NS_ID) == APPLY(C0(NS_ID))", "C(EW_ID) == APPLY(C0(EW_ID))", "C(VT_ID) == APPLY(C0(VT_ID))"], modifies=["param:self"],
+                    notes="the TimeSeries method is applied once to each of ns, ew, vt with the caller's arguments")
+
+
+_WRAPPERS = [
+    ("trim", {"start_time": T0, "end_time": T1}, lambda c: TRIMF(c, T0, T1)),
+    ("detrend", {"type": StrV("constant")}, lambda c: DETRF(c, z3.IntVal(_CODE["constant"]))),
+    ("window", {"type": StrV("tukey"), "width": WWID}, lambda c: WINF(c, z3.IntVal(_CODE["tukey"]), WWID)),
+    ("butterworth_filter", {"fcs_in_hz": Tup((BLO, BHI)), "order": BORD}, lambda c: BUTF(c, BLO, BHI, BORD)),
+]
+_WR_REG = {"TimeSeries.trim": FuncV(_m_ts_trim, "trim"), "TimeSeries.detrend": FuncV(_m_ts_detrend, "detrend"), "TimeSeries.window": FuncV(_m_ts_window, "window"),
+           "TimeSeries.butterworth_filter": FuncV(_m_ts_butter, "butterworth_filter")}
+for _m, _extra, _apply in _WRAPPERS:
+    _c = _wrapper(_m, _extra, _apply)
+    _c.ghost_state = ("__WC",)
+    TASKS.append(FunctionTask(_c, registry=_WR_REG, clauses=[f"SeismicRecording3C.{_m} acts on all three components with the same arguments"]))
